@@ -56,6 +56,11 @@ FAULTS = [
     "\\\"\\", "\\\"", "\\ \"abc\\", "@db @count 3 \\", "@db @hex 3 \\", "@db @bin 3 \\", "@db @count 3", "@db @hex 3", "@dw @count 1 +", "@db @string { \"a\" } \\", "@db @isdef foo \\",
     "@db @getmeta foo, \"k\" \\", "@parse \"@db 1\" \\", "@db @label { \"a\" } \\", "@each vv, { 1 }\n@db vv\n@endeach \\", "@db 1, @count 2 \\",
     "=", "@db 1 = 2", "`", "§", "\x00", "@db \"\x00\"", "\ufeff@db 1",
+    # a closing brace where an argument, an element or a piece is expected (every site that counts braces)
+    "@macro m9, 1, pa\n@db pa\n@endmacro\nm9 }", "@macro m9, 2, pa, pb\n@db pa, pb\n@endmacro\nm9 1, } 2", "@macro m9, 1, pa\n@db pa\n@endmacro\nm9 } }\n@db 1",
+    "@macro m9, 1, pa\n@db pa\n@endmacro\nm9 { } }", "@db @string }", "@db @string { } }", "@label }:", "@label { } }:", "@each vv, }\n@endeach", "@each vv, { } }\n@endeach", "@each vv, } {\n@endeach",
+    # pieces that come to nothing
+    '@label "":', "@label {}:", '@dw @label ""', "@macro m9, 2, pa, pb\n@label { pa pb }:\n@endmacro\nm9 \"\", \"\"", '@db @string { "" "" }', "@label { \"\" \"\" }: @dw 1",
 ]
 
 def nest(kind, depth):
